@@ -23,7 +23,7 @@ use std::sync::Arc;
 use untrusted::Input;
 
 use crate::error::Error;
-use crate::interchange::cjson::shims;
+use crate::interchange::cjson::{shims, to_signable_text};
 use crate::Result;
 
 const HASH_ALG_PREFS: &[HashAlgorithm] =
@@ -189,8 +189,8 @@ fn calculate_key_id(
                 "public key from bytes to string failed: {}",
                 e,
             ))
-        })?
-        .replace("\\n", "\n");
+        })
+        .map(|canonical| to_signable_text(&canonical))?;
     let mut context = digest::Context::new(&SHA256);
     context.update(public_key.as_bytes());
 
